@@ -658,6 +658,9 @@ def emit_fn(u, file, nm, block):
         out.append((b[pos:a].decode(), pos, None))
         if kind == "header":
             hdr = "\n".join(c["lines"]).strip("\n")
+            hdr, renamed = follow_param_renames(hdr, b[a:e].decode())
+            if renamed:
+                u.edits.append("%s::%s: closure #%d: contract parameters renamed to the source's (%s)" % (file, nm, c["ord"], ", ".join("%s->%s" % p for p in renamed)))
             out.append((hdr, None, {"part": "closure-header", "closure": c["ord"]}))
             u.edits.append("%s::%s: closure #%d header `%s` replaced by annotated header" % (file, nm, c["ord"], b[a:e].decode()))
             pos = e
@@ -761,6 +764,56 @@ def scan_assumptions(text):
         if re.search(r"\baxiom fn\b|broadcast axiom|#\[verifier::external\]", s):
             res["axiom"].append("line %d: %s" % (i + 1, s[:120]))
     return res
+
+
+
+def _closure_param_names(header):
+    """names of the parameters of a closure header `[move] |a, b: T| ...` if every parameter is a plain identifier, else None"""
+    i = header.find("|")
+    if i < 0:
+        return None
+    j = header.find("|", i + 1)
+    if j < 0:
+        return None
+    inner = header[i + 1:j].strip()
+    if not inner:
+        return []
+    parts, depth, cur = [], 0, ""
+    for ch in inner:
+        if ch in "(<[":
+            depth += 1
+        elif ch in ")>]":
+            depth -= 1
+        if ch == "," and depth == 0:
+            parts.append(cur)
+            cur = ""
+        else:
+            cur += ch
+    if cur.strip():
+        parts.append(cur)
+    names = []
+    for p_ in parts:
+        n = p_.split(":", 1)[0].strip()
+        n = re.sub(r"^mut\s+", "", n)
+        if not re.match(r"^[A-Za-z_][A-Za-z0-9_]*$", n):
+            return None
+        names.append(n)
+    return names
+
+
+def follow_param_renames(contract_header, real_header):
+    """a closure contract names the closure's parameters; if the source renamed them (a harmless edit), rename them in the contract
+    text too (whole words, simultaneously).  Anything but plain identifier parameters, or a different count, is left alone."""
+    mine, real = _closure_param_names(contract_header), _closure_param_names(real_header)
+    if not mine or real is None or len(mine) != len(real) or mine == real:
+        return contract_header, []
+    mapping = [(m, r_) for m, r_ in zip(mine, real) if m != r_]
+    tmp = contract_header
+    for k, (m, _) in enumerate(mapping):
+        tmp = re.sub(r"\b%s\b" % re.escape(m), "\x00%d\x00" % k, tmp)
+    for k, (_, r_) in enumerate(mapping):
+        tmp = tmp.replace("\x00%d\x00" % k, r_)
+    return tmp, mapping
 
 
 def run_verus(unit_name, text, workdir, extra_args=None, timeout=900):
